@@ -4,7 +4,7 @@ import ast, os, re, subprocess, sys, tempfile, time, traceback, json, hashlib
 import z3
 from . import api, src
 from .core import (Unsupported, PathEnd, ReturnSig, BreakSig, ContinueSig, PyRaise, Obligation, Path, explore)
-from .zsorts import ZS, VStruct, VOpt, VBox, VObj, VAbs
+from .zsorts import ZS, VStruct, VOpt, VBox, VObj, VAbs, VMatch
 from .interp import Interp, Frame, Builtin, SpecRef, is_sym
 from .exprs import ExprMixin, PyList, PyDict
 from .stmts import StmtMixin, ExcVal
@@ -64,6 +64,9 @@ class Engine(Interp, ExprMixin, StmtMixin, CallMixin, MethodMixin):
             for k, g in c.ghosts.items():
                 env[k] = self.zs.sym(g, k, res)
             fr.env = env
+            for v_ in env.values():
+                if isinstance(v_, VMatch):
+                    self.assume_match_facts(v_)
             if c.yields is not None:
                 p.yields = VBox('list', z3.Empty(self.zs.zsort(api.Seq(c.yields))), c.yields)
                 fr.extra['__yield__'] = p.yields
